@@ -63,7 +63,11 @@ func newDeferred2(args ...px.Value) *deferred {
 
 func newDeferredFromHash(hash *Hash) *deferred {
 	name := hash.Get5(`name`, px.EmptyString).String()
-	arguments := hash.Get5(`arguments`, px.EmptyArray).(*Array)
+	// arguments is Optional[Array[Any]]: undef stands for no arguments
+	arguments, ok := hash.Get5(`arguments`, px.EmptyArray).(*Array)
+	if !ok {
+		arguments = emptyArray
+	}
 	return &deferred{name, arguments}
 }
 
